@@ -56,4 +56,10 @@ def windowAccesses : List (String × Bool × Bool) := [
 def ownIdInMessages : Nat := 0
 def remoteIdInMessages : Nat := 17
 
+/-- methods that call transport._send_user_message / _send_message while (possibly) holding self.lock -/
+def sendsUnderLock : List String := []
+
+/-- the argument of every transport._unlink_channel(…) call in class Channel -/
+def unlinkArgs : List String := ["self.chanid", "self.chanid"]
+
 end PV.Generated.ChanLock
